@@ -16,3 +16,5 @@ const Instrumented = true
 // operation codes of shim and scheduler must agree
 var _ = [1]int{}[verifshim.OpOnceDone-OpOnceDone]
 var _ = [1]int{}[verifshim.OpLock-OpLock]
+var _ = [1]int{}[verifshim.OpPoolGet-OpPoolGet]
+var _ = [1]int{}[verifshim.OpPoolPut-OpPoolPut]
